@@ -190,7 +190,14 @@ class Message(BaseMessage):
 
         This is the reverse of str(msg).
         """
-        return cl(**str2msg(text))
+        try:
+            msgdict = str2msg(text)
+            if 'skip_checks' in msgdict:
+                raise ValueError('skip_checks is not a message attribute')
+            return cl(**msgdict)
+        except LookupError as le:
+            # Empty text (IndexError) or unknown message type.
+            raise ValueError(f'invalid message text {text!r}') from le
 
     def __len__(self):
         if self.type == 'sysex':
